@@ -114,7 +114,7 @@ func genConstPoint(r *kit.Rng, freq, per int64) (elapsed int64, hits uint64) {
 }
 
 var sinePeriods = []int64{1000000, 10000000, 100000000, 1000000000, 10000000000, 60000000000, 600000000000, 3600000000000}
-var sineRatios = []float64{0, 0.1, 0.25, 0.5, 0.75, 0.9, 0.95, 0.99, 0.999, 0.9999, 0.999999}
+var sineRatios = []float64{0, 0.1, 0.25, 0.5, 0.75, 0.9, 0.95, 0.99, 0.995, 0.999, 0.9999, 0.999999}
 var sineStarts = []float64{0, math.Pi / 2, math.Pi, 3 * math.Pi / 2}
 
 // genSineRealistic: period 1ms..1h, mean 1..~1e6 hits/s, amplitude from 0 up to just below the mean.
@@ -139,6 +139,11 @@ func genSineRealistic(r *kit.Rng) *in {
 		x.AmpFreq = int64(float64(x.MeanFreq) * 60 * sineRatios[r.Pick(len(sineRatios))])
 	default:
 		x.AmpFreq = int64(float64(x.MeanFreq) * sineRatios[r.Pick(len(sineRatios))])
+	}
+	// invalid() accepts every amplitude below the mean, also negative ones (a wave shifted by half a
+	// period): both signs with the same weight
+	if r.Chance(0.5) {
+		x.AmpFreq = -x.AmpFreq
 	}
 	var st float64
 	switch r.Pick(4) {
